@@ -391,6 +391,75 @@ def builtin_cases(res):
   harness.hard_reset()
 
 
+def odd_signature_cases(res):
+  """Callables whose real calling convention differs from the signature Gin reads: a functools.wraps decorator that
+  consumes a leading positional argument, positional-only parameters next to **kwargs.  Whatever Gin does with the
+  marker there, it never hands it to the function, and an unfilled marker is a clean failure."""
+  import functools  # pylint: disable=import-outside-toplevel
+  seen = []
+
+  def scale(x=1):
+    seen.append(('scale', x))
+    return x
+
+  def tagged(fn):
+    @functools.wraps(fn)
+    def inner(tag, *a, **k):
+      seen.append(('inner', tag, a, tuple(sorted(k.items()))))
+      return fn(*a, **k)
+    return inner
+
+  def tag(name, /, **attrs):
+    seen.append(('tag', name, tuple(sorted(attrs.items()))))
+    return (name, attrs)
+
+  def tag2(name, other='o', /, *rest, **attrs):
+    seen.append(('tag2', name, other, rest, tuple(sorted(attrs.items()))))
+    return (name, other, attrs)
+
+  def has_marker(x):
+    if x is R:
+      return True
+    if isinstance(x, (tuple, list)):
+      return any(has_marker(y) for y in x)
+    return False
+  cases = [
+      ('wraps_consumes_positional', lambda: tagged(scale), {}, lambda f: f('tag', R), None),
+      ('wraps_consumes_positional_bound', lambda: tagged(scale), {'x': 5}, lambda f: f('tag', R), None),
+      ('wraps_consumes_positional_two', lambda: tagged(scale), {}, lambda f: f('tag', 3, R), None),
+      ('posonly_kwargs_same_name', lambda: tag, {}, lambda f: f('input', name=R), ['name']),
+      ('posonly_kwargs_other_name', lambda: tag, {}, lambda f: f('input', colour=R), ['colour']),
+      ('posonly_two_kwargs_same_name', lambda: tag2, {}, lambda f: f('input', 'second', other=R), ['other']),
+      ('posonly_rest_marker', lambda: tag2, {}, lambda f: f('input', 'second', R), None),
+  ]
+  for name, mk, bindings, call, missing in cases:
+    desc = ['odd', name]
+    harness.hard_reset()
+    del seen[:]
+    res.case(tuple(desc), True)
+    try:
+      cf = gin.external_configurable(mk(), name='c10o_' + name, module='c10')
+      for p, v in bindings.items():
+        gin.bind_parameter('c10.c10o_%s.%s' % (name, p), v)
+    except Exception as e:  # pylint: disable=broad-except
+      res.outcome('odd:registration_' + type(e).__name__)
+      continue          # (rejecting such a binding or registration is fine)
+    try:
+      got, out = call(cf), 'ok'
+    except Exception as e:  # pylint: disable=broad-except
+      got, out = e, type(e).__name__
+    res.outcome('odd:' + out)
+    if any(has_marker(rec) for rec in seen):
+      res.violation('marker_reached_function', '%r: bindings %r: the REQUIRED marker was handed to the function: %r (%s %r)' %
+                    (desc, bindings, seen, out, got), desc)
+    elif missing is not None and (out != 'RuntimeError' or not all(("'%s'" % n) in str(got) for n in missing)):
+      res.violation('missing_required_names', '%r: expected a clean failure naming %r, got %s %r (calls seen %r)' %
+                    (desc, missing, out, got, seen), desc)
+    else:
+      res.w('odd_calling_conventions')
+  harness.hard_reset()
+
+
 def gen(tier):
   for sname, sh in SHAPES.items():
     names = sh['pos'] + sh['kwo'] + (['z'] if sh['vk'] else [])
@@ -424,6 +493,8 @@ def run_shard(i, tier):
     reg_cases(res)
   if i == 1:
     builtin_cases(res)
+  if i == 2:
+    odd_signature_cases(res)
   harness.hard_reset()
   return res
 
@@ -435,6 +506,9 @@ def replay(desc):
     return res
   if desc[0] == 'builtin':
     builtin_cases(res)
+    return res
+  if desc[0] == 'odd':
+    odd_signature_cases(res)
     return res
   sname, mitems, npos, extra, bn, bscope, active = desc
   run_case(sname, dict((k, v) for k, v in mitems), npos, extra, bn, bscope, active, res)
